@@ -126,7 +126,9 @@ fn gen(rng: &mut Rng, tier: Tier) -> Input {
                 if src == 5 {
                     // header padding lengths around typical buffer sizes
                     for b in spec.blocks.iter_mut() {
-                        let words = rng.range(1, 40) as usize;
+                        // up to the format's maximum (1024 bytes): paddings of 256 bytes and more
+                        // are longer than what a one-byte length can count
+                        let words = if rng.chance(1, 3) { *rng.pick(&[63usize, 64, 65, 100, 127, 128, 129, 192, 200, 250]) } else { rng.range(1, 40) as usize };
                         let nb = crate::refmodel::xz::BlockSpec::new(
                             b.data.clone(),
                             b.plain.clone(),
@@ -261,8 +263,20 @@ fn fam_inputs(ctx: &CaseCtx, cov: &mut Cov) -> CaseOut {
         kinds.push(ReaderKind::Buf(c));
         cov.name("reader.capacity_at_structural_offset", 1);
     }
+    // ... and capacities that leave exactly 256 or 512 buffered bytes behind a structural offset
+    // (a refill whose length is a multiple of 256), plus the plain powers of two
+    let mut caps2: Vec<usize> = inp.offsets.iter().flat_map(|&o| [o + 256, o + 512]).chain([128usize, 256, 512, 1024]).filter(|&c| c <= inp.data.len() + 1).collect();
+    caps2.sort();
+    caps2.dedup();
+    for c in caps2.into_iter().take(48) {
+        kinds.push(ReaderKind::Buf(c));
+        cov.name("reader.capacity_leaving_a_multiple_of_256", 1);
+    }
     for k in [1usize, 2, 3, 7, 64] {
         kinds.push(ReaderKind::Chaos { seed: rng.next(), k });
+    }
+    if inp.data.len() > 600 {
+        kinds.push(ReaderKind::Chaos { seed: rng.next(), k: 600 });
     }
     for rk in kinds {
         let r = run(&inp, rk);
